@@ -146,9 +146,10 @@ def block_spans(lay):
 
 def reader_cfg(rnd, B, light=False):
     conc = rnd.choice([1, 1, 2, 4])
+    seek = rnd.random() < 0.3            # the source is also an io.Seeker (a bytes.Reader, a file)
     if rnd.random() < 0.3:
-        return {"conc": conc, "mode": "writeto"}
-    return {"conc": conc, "mode": "read", "bufs": [rnd.choice([4096, B, B + 1, 3 * B] + ([] if light else [977]))]}
+        return {"conc": conc, "mode": "writeto", "seek": seek}
+    return {"conc": conc, "mode": "read", "bufs": [rnd.choice([4096, B, B + 1, 3 * B] + ([] if light else [977]))], "seek": seek}
 
 
 # ------------------------------------------------------------------------------------------ case builders
@@ -180,6 +181,14 @@ def c06_cases(ctx, bases, rnd):
                 cases.append({"id": len(cases) + 1, "chunks": [{"file": c["save"]}], "ops": [[1, cut]], "cfg": cfg, "content": c["input"],
                               "tag": {"base": bi, "cut": cut, "legacyboundary": bool(legacy and cut in blockends),
                                       "field": next((k_ for k_, a, z in lay if a <= cut < z), "end")}})
+    # a stream cut inside a leading skippable frame (its announced bytes are missing), sources with and without Seek
+    skipm = [0x51, 0x2A, 0x4D, 0x18]
+    for bi, bf in enumerate(bases[:3]):
+        for announced, present in ((10, 3), (1, 0), (100000, 5000), (4, 3)):
+            for seek in (False, True):
+                cases.append({"id": len(cases) + 1, "chunks": [{"bytes": skipm + le32(announced) + [7] * present}], "ops": [],
+                              "cfg": {"conc": [1, 4][(bi + seek) % 2], "mode": ["read", "writeto"][(bi + announced) % 2], "bufs": [4096], "seek": seek},
+                              "content": bf["case"]["input"], "tag": {"base": bi, "cut": 8 + present, "legacyboundary": False, "field": "skippable"}})
     return cases
 
 
@@ -265,6 +274,15 @@ def c05_cases(ctx, bases, rnd):
     for body in (le32(len(lblk)) + lblk + [0, 0, 0, 0], le32(len(lblk)) + lblk + [0, 0, 0, 0] + le32(len(lblk)) + lblk, [0, 0, 0, 0] + le32(len(lblk)) + lblk):
         for cfg in ({"conc": 1, "mode": "read", "bufs": [4096]}, {"conc": 1, "mode": "writeto"}, {"conc": 4, "mode": "read", "bufs": [4096]}, {"conc": 4, "mode": "writeto"}):
             cases.append({"id": len(cases) + 1, "chunks": [{"bytes": LEGACY_MAGIC + body}], "ops": [], "cfg": cfg, "tag": {"base": -1, "mut": "legacy-zero-word"}})
+    # a skippable frame in front of a valid frame, its length field damaged so that it points past the end of the input;
+    # sources with and without Seek
+    skipm = [0x5A, 0x2A, 0x4D, 0x18]
+    for bi, bf in enumerate(bases[:4]):
+        for ln in (3 | 0x40000000, 0x7FFFFFFF, 3 + bf["w"]["sinkLen"] + 1, 3 + bf["w"]["sinkLen"] + 100000):
+            for seek in (False, True):
+                cases.append({"id": len(cases) + 1, "chunks": [{"bytes": skipm + le32(ln) + [9, 9, 9]}, {"file": bf["case"]["save"]}], "ops": [],
+                              "cfg": {"conc": [1, 4][(bi + seek) % 2], "mode": ["read", "writeto"][bi % 2], "bufs": [4096], "seek": seek},
+                              "tag": {"base": bi, "mut": "skippable-length-past-end"}})
     # a legacy frame whose second block has a match reaching into the first one (legacy blocks are independent)
     b1 = [0xF0, 15] + [ord("a") + k % 26 for k in range(30)]
     b2 = [0x14, ord("x"), 10, 0, 0x50] + [ord(ch) for ch in "tail!"]
@@ -309,6 +327,7 @@ def c07_cases(ctx, bases, rnd):
     tail = hdr + [0, 0, 0, 0]
     for ln in (0, 1, len(tail) - 1, len(tail), len(tail) + 1, (1 << 31) - 1, 1 << 31, (1 << 32) - 1):
         add([{"bytes": skipm + le32(ln) + tail}], "skip-length")
+        add([{"bytes": skipm + le32(ln) + tail}], "skip-length", cfg={"conc": rnd.choice([1, 4]), "mode": rnd.choice(["read", "writeto"]), "bufs": [4096], "seek": True})
     for size in (1, 65536, 65537, (1 << 31) - 1, 0x80000000 | 1, 0x80000000 | 65537, 0xFFFFFFFF, 0x80000000):
         for h in (hdr, hdr_cc):
             add([{"bytes": h + le32(size) + [1, 2, 3]}], "block-size")
